@@ -50,9 +50,10 @@ func Atoi(s string) int {
 // are known to not place any significance on their spaces. Such as individual
 // and place names.
 func CleanSpace(s string) string {
-	// Replace twice if there is an odd number of spaces in a row.
-	s = strings.Replace(s, "  ", " ", -1)
-	s = strings.Replace(s, "  ", " ", -1)
+	// Each pass halves the runs of spaces, repeat until there are none left.
+	for strings.Contains(s, "  ") {
+		s = strings.Replace(s, "  ", " ", -1)
+	}
 
 	// Trim whatever spaces are left on either side.
 	s = strings.TrimSpace(s)
